@@ -755,6 +755,9 @@ impl Sweep for BigInput {
     fn chunks(&self) -> usize {
         1
     }
+    fn after_random(&self) -> bool {
+        true
+    }
     fn run_chunk(&self, _chunk: usize, f: &mut dyn FnMut(Case)) {
         let c = crate::gen::corpus();
         let mut s = String::with_capacity(self.mib << 20);
@@ -785,6 +788,9 @@ pub struct Counters {
 const CNT_CTX: &[(&str, &str)] = &[("", ""), ("%m(", ")"), ("%m(a=", ");"), ("%upcase(", ")"), ("%macro m(a=", "); %mend;"), ("%eval(", ")"), ("%let x=", ";"), ("%str(", ")"), ("\"", "\""), ("%put ", ";"), ("%if ", " %then;"), ("x=", ";"), ("%sysfunc(f(", "))"), ("%scan(", ",1)")];
 const CNT_UNIT: &[(&str, &str)] = &[("(", ")"), ("%m(", ")"), ("%eval(", ")"), ("%str(", ")"), ("&", ""), ("&a", ""), ("%upcase(", ")"), ("\"%m(", ")\""), ("%do;", "%end;"), ("\n", ""), (",", ""), ("'a'", ""), ("/*c*/", ""), ("%if 1 %then ", ";"), ("é", ""), ("a.", ""), ("%let a=", ";")];
 impl Sweep for Counters {
+    fn after_random(&self) -> bool {
+        true
+    }
     fn name(&self) -> String {
         format!("counter boundaries: {} units repeated n times, n in {}, in {} contexts, left open and closed", CNT_UNIT.len(), if self.big { "{127..129, 255..257, 32767..32769, 65535..65537, 2^20}" } else { "{128, 129, 256, 257, 32768, 32769, 65536, 65537}" }, CNT_CTX.len())
     }
